@@ -419,6 +419,10 @@ def judge(res, xmlschema, counter, fx_dir, cell, payload, result, events):
                 and not expanded and not fetched:
             res.count('skippable_declaration:refused_as_undefined_entity')
             return
+        if declares == 'skippable' and raised is None and cell.get('lazy') and not expanded and not fetched:
+            # a lazy resource parses the root's start tag only: the reference to the (skipped) entity is not reached
+            res.count('skippable_declaration:reference_not_reached_by_the_lazy_parse')
+            return
         if raised != 'forbidden' and kind.startswith('remote_url_two_faced'):
             res.violation('double-opening:the-response-parsed-is-not-the-response-checked' +
                           (':response-object-that-is-not-an-io-stream' if kind.endswith('wrapped') else ''), cell,
